@@ -175,6 +175,12 @@ def _threshold_classes(kind, d, X, y, cfg, init, n):
     sel.fit_quiet(s, np.array(X, float), None if y is None else np.array(y, float))
     ms = [float(np.max(v)) for v in rec.scores if np.size(v)]
     ms = sorted({m for m in ms if np.isfinite(m)})
+    # merge values that differ only at rounding level (ARPACK start vectors): classes stay reproducible
+    merged = []
+    for m in ms:
+        if not merged or abs(m - merged[-1]) > 1e-7 * max(1.0, abs(m)):
+            merged.append(m)
+    ms = merged
     if not ms:
         return [], []
     absolute = [ms[0] - abs(ms[0]) * 0.5 - 1.0]
@@ -187,7 +193,7 @@ def _threshold_classes(kind, d, X, y, cfg, init, n):
             break
     relative = []
     if first and np.isfinite(first) and first > 0:
-        rs = sorted({m / first for m in ms})
+        rs = [m / first for m in ms]
         relative = [rs[0] * 0.5 - 0.1] + [(a + b) / 2.0 for a, b in zip(rs[:-1], rs[1:])] + [rs[-1] * 2.0 + 1.0]
     return absolute, relative
 
